@@ -296,6 +296,8 @@ class CallMixin(object):
             return self.alloc(st, lo)
         if name == "hash":
             x = args[0]
+            if isinstance(x, TupleVal) and all(isinstance(i_, Term) for i_ in x.items):
+                return App("hash", (App("tuple", x.items),))
             return App("hash", (x,)) if isinstance(x, Term) else Opaque("hash(obj)")
         if name == "isinstance":
             x, c = args
